@@ -9,6 +9,7 @@ import (
 
 //verif:harness VerifC04_Loop quick.maxpaths=60000 thorough.maxpaths=400000 timeout=2400
 //verif:harness VerifC04_Bodies quick.maxpaths=40000 thorough.maxpaths=200000 timeout=1800
+//verif:harness VerifC04_Fields quick.maxpaths=20000 thorough.maxpaths=100000 timeout=1800
 //verif:harness VerifC04_Nested quick.maxpaths=20000 thorough.maxpaths=100000 timeout=1800
 
 type zzC04Root struct {
@@ -294,4 +295,87 @@ func VerifC04_Bodies() {
 		}
 		zzAssert(cnt == want, "C04.bodies.item-count")
 	}
+}
+
+type zzC04User struct {
+	Name string
+	Nick string
+	Tags []string
+}
+
+// VerifC04_Fields: fields of the item are read through the loop variable
+// only: an item that lacks a field (or whose field is empty) shows nothing,
+// even when the loop variable shadows a root value that has that field, and
+// a nested loop over an item's missing collection renders its v-else.
+func VerifC04_Fields() {
+	shadow := zzBool("shadow")
+	asStruct := zzBool("struct")
+	rootIsStruct := zzBool("rootstruct")
+	v := "u"
+	if shadow {
+		v = "user"
+	}
+	n := 1 + zzChoice("n", 2)
+	var items []any
+	var want strings.Builder
+	for k := 0; k < n; k++ {
+		hasNick := zzBool("hasnick")
+		hasTags := zzBool("hastags")
+		name := "n" + strconv.Itoa(k)
+		nick, tags := "", []string(nil)
+		if hasNick {
+			nick = "k" + strconv.Itoa(k)
+		}
+		if hasTags {
+			tags = []string{"t" + strconv.Itoa(k)}
+		}
+		if asStruct {
+			items = append(items, zzC04User{Name: name, Nick: nick, Tags: tags})
+		} else {
+			m := map[string]any{"Name": name}
+			if hasNick {
+				m["Nick"] = nick
+			}
+			if hasTags {
+				m["Tags"] = tags
+			}
+			items = append(items, m)
+		}
+		want.WriteString("[" + name + "/" + nick + ":")
+		if hasTags {
+			want.WriteString("<" + tags[0] + ">")
+		} else {
+			want.WriteString("none")
+		}
+		want.WriteString("]")
+	}
+	outerUser := any(map[string]any{"Name": "OUTER", "Nick": "BOSS", "Tags": []string{"OT"}})
+	if rootIsStruct {
+		outerUser = zzC04User{Name: "OUTER", Nick: "BOSS", Tags: []string{"OT"}}
+	}
+	body := `<ul><li v-for="` + v + ` in users" :title="` + v + `.Nick">[{{ ` + v + `.Name }}/{{ ` + v + `.Nick }}:<i v-for="t in ` + v + `.Tags">&lt;{{ t }}&gt;</i><i v-else>none</i>]</li></ul><p>after:{{ user.Nick }}</p>`
+	out, err := zzRenderVia(zzEntry(), nil, nil, body, map[string]any{"users": items, "user": outerUser})
+	zzNote("template", body)
+	zzNote("out", out)
+	zzAssert(err == nil, "C04.fields.render-error")
+	flat := zzFlat(out)
+	// strip the markup inside the brackets
+	flat = strings.ReplaceAll(strings.ReplaceAll(flat, "<i>", ""), "</i>", "")
+	flat = strings.ReplaceAll(strings.ReplaceAll(flat, "&lt;", "<"), "&gt;", ">")
+	var got strings.Builder
+	rest := flat
+	for {
+		p := strings.Index(rest, "[")
+		if p < 0 {
+			break
+		}
+		q := strings.Index(rest[p:], "]")
+		got.WriteString(rest[p : p+q+1])
+		rest = rest[p+q+1:]
+	}
+	zzNote("want", want.String())
+	zzNote("got", got.String())
+	zzAssert(got.String() == want.String(), "C04.fields.item-fields-only")
+	zzAssert(strings.Contains(flat, "after:BOSS"), "C04.fields.scope-restored")
+	zzAssert(strings.Count(flat, `title="BOSS"`) == 0, "C04.fields.bound-attribute-sees-outer-value")
 }
